@@ -193,6 +193,48 @@ func c08e(c *Ctx) {
 			n++
 			c.Bad(fmt.Sprintf("%s/element-overwritten-in-place#%d", fk, n), c.W.Pos(st.Pos()), "an element of "+pretty(c.term(fn, ia.X))+" ("+types.TypeString(sl, nil)+") is overwritten in place: lists of tokens, statements, entries and records keep the order and content they were built with")
 		})
+		// (iv) the parser never cuts a list of tokens, statements or records: what a list parser
+		// returned is what is kept (popping one of the parser's own stacks is the one exception)
+		if c.W.PkgShort(fn) == "parser" {
+			k := 0
+			instrs(fn, func(in ssa.Instruction) {
+				sl, ok := in.(*ssa.Slice)
+				if !ok {
+					return
+				}
+				st, isSl := sl.X.Type().Underlying().(*types.Slice)
+				if !isSl || !repoElem(c.W, st.Elem(), 0) {
+					return
+				}
+				if sl.Low == nil && sl.High == nil && sl.Max == nil {
+					return // x[:] is x
+				}
+				pop := false
+				if ld, isLd := sl.X.(*ssa.UnOp); isLd {
+					if _, t, f, okF := fieldAddrOf(ld.X); okF && typeIs(t, "parser", "Parser") && sl.Referrers() != nil && len(*sl.Referrers()) > 0 {
+						pop = true
+						for _, r := range *sl.Referrers() {
+							if _, isDbg := r.(*ssa.DebugRef); isDbg {
+								continue
+							}
+							stI, isSt := r.(*ssa.Store)
+							if !isSt {
+								pop = false
+								continue
+							}
+							if _, t2, f2, ok2 := fieldAddrOf(stI.Addr); !ok2 || f2 != f || !typeIs(t2, "parser", "Parser") {
+								pop = false
+							}
+						}
+					}
+				}
+				if pop {
+					return
+				}
+				k++
+				c.Bad(fmt.Sprintf("%s/list-cut#%d", fk, k), c.W.Pos(sl.Pos()), "the list "+pretty(c.term(fn, sl.X))+" ("+types.TypeString(st, nil)+") is cut to "+pretty(c.term(fn, sl))+": the parser keeps the lists of tokens, statements and records it gathered whole")
+			})
+		}
 		// (iii) copy() into such a list
 		for _, ci := range callsIn(fn) {
 			if calleeName(ci) != "builtin:copy" {
@@ -206,5 +248,114 @@ func c08e(c *Ctx) {
 			c.Bad(fmt.Sprintf("%s/copied-over@%d", fk, c.T(fn).callOrd[ci]), c.W.Pos(ci.Pos()), "copy() overwrites "+pretty(c.term(fn, dst))+" ("+types.TypeString(sl, nil)+"), a list that was not made in this function")
 		}
 	}
+	c08eWhole(c)
 	c.Check(nFns > 20, "scanned", "-", fmt.Sprintf("%d functions scanned for sorting calls, in-place element stores and copies", nFns), "too few functions were scanned")
+}
+
+// c08eWhole: (v) a list a parser function returns (statements, tokens) is taken whole by its
+// caller: appended as a whole, stored, put in a table, returned. The caller does not walk through
+// it, index it, cut it or hand it to a helper — the only code that decides what a list contains is
+// the list parser that gathered it.
+func c08eWhole(c *Ctx) {
+	nLists := 0
+	for _, fn := range c.W.FuncsOf("parser") {
+		if isTestFunc(c.W, fn) || len(fn.Blocks) == 0 {
+			continue
+		}
+		for _, ci := range callsIn(fn) {
+			g := callee(ci)
+			call, isCall := ci.(*ssa.Call)
+			if !isCall {
+				continue
+			}
+			var res *types.Tuple
+			if g != nil {
+				if !c.W.InRepo(g) || c.W.PkgShort(g) != "parser" {
+					continue
+				}
+				res = g.Signature.Results()
+			} else if _, isB := call.Call.Value.(*ssa.Builtin); isB {
+				continue
+			} else if sig, ok := call.Call.Value.Type().Underlying().(*types.Signature); ok && !call.Call.IsInvoke() {
+				res = sig.Results() // a list parser handed in as a function value
+			}
+			if res == nil || res.Len() == 0 {
+				continue
+			}
+			sl, isSl := res.At(0).Type().Underlying().(*types.Slice)
+			if !isSl || !repoElem(c.W, sl.Elem(), 0) {
+				continue
+			}
+			var v ssa.Value = call
+			if res.Len() > 1 {
+				v = nil
+				for _, r := range *call.Referrers() {
+					if ex, ok := r.(*ssa.Extract); ok && ex.Index == 0 {
+						v = ex
+					}
+				}
+			}
+			if v == nil {
+				continue // discarded: C01.h
+			}
+			nLists++
+			name := "a list parser passed in"
+			if g != nil {
+				name = g.Name()
+			}
+			key := fmt.Sprintf("%s/list-taken-whole[%s@%d]", fn.Name(), name, c.T(fn).callOrd[ci])
+			bad := ""
+			seen := map[ssa.Value]bool{}
+			var walk func(x ssa.Value)
+			walk = func(x ssa.Value) {
+				if seen[x] || x.Referrers() == nil {
+					return
+				}
+				seen[x] = true
+				for _, r := range *x.Referrers() {
+					switch y := r.(type) {
+					case *ssa.DebugRef, *ssa.Return, *ssa.MapUpdate:
+					case *ssa.Phi:
+						walk(y)
+					case *ssa.ChangeType:
+						walk(y)
+					case *ssa.Store:
+						if a, isA := y.Addr.(*ssa.Alloc); isA && y.Val == x && a.Referrers() != nil {
+							// a local variable kept in a cell: follow its loads
+							for _, r2 := range *a.Referrers() {
+								if ld, isLd := r2.(*ssa.UnOp); isLd {
+									walk(ld)
+								}
+							}
+						}
+					case *ssa.BinOp:
+						// compared with nil
+					case *ssa.Call:
+						switch calleeName(y) {
+						case "builtin:len", "builtin:cap":
+						case "builtin:append":
+							if y.Call.Args[0] == x {
+								walk(y) // grown at its end: still the list
+							}
+						default:
+							bad = "handed to " + calleeName(y) + " at " + c.W.Pos(y.Pos())
+						}
+					case *ssa.Range, *ssa.Index, *ssa.IndexAddr, *ssa.Lookup:
+						bad = "walked through or indexed at " + c.W.Pos(r.Pos())
+					case *ssa.Slice:
+						if y.Low != nil || y.High != nil || y.Max != nil {
+							bad = "cut at " + c.W.Pos(r.Pos())
+						} else {
+							walk(y)
+						}
+					default:
+						bad = fmt.Sprintf("used by %T at %s", r, c.W.Pos(r.Pos()))
+					}
+				}
+			}
+			walk(v)
+			c.Check(bad == "", key, c.W.Pos(call.Pos()), "the list "+name+" returned is appended, stored or returned as a whole", "the list "+name+" returned is "+bad+": the caller picks through a list a parser gathered, so what is kept may differ from what was parsed")
+		}
+	}
+	c.Check(nLists >= 8, "parsed-lists", "-", fmt.Sprintf("%d parsed lists followed", nLists), fmt.Sprintf("only %d parsed lists found", nLists))
 }
